@@ -176,29 +176,40 @@ def gen_ipstring(rng):
         return v4_notations(v, rng)
     if r < 0.5:
         return rng.choice(V6_LITERALS)
-    # structured random IPv6-ish strings
+    # structured random IPv6-ish strings: mostly well-formed, then possibly one mutation
     hexd = "0123456789abcdefABCDEF"
-    n = rng.choice([1, 2, 3, 5, 6, 7, 8, 8, 9])
-    groups = ["".join(rng.choice(hexd) for _ in range(rng.choice([1, 1, 2, 3, 4, 4, 5]))) if rng.random() < 0.93 else "" for _ in range(n)]
-    if rng.random() < 0.6 and n > 1:
-        k = rng.randrange(n + 1)
-        groups = groups[:k] + [""] + groups[k + rng.choice([0, 1, 2]):]
-    s = ":".join(groups)
+
+    def grp():
+        return "".join(rng.choice(hexd) for _ in range(rng.choice([1, 1, 2, 3, 4, 4]))) if rng.random() < 0.8 else rng.choice(["0", "ffff", "fe80", "fc00", "ff02"])
+    v4tail = rng.random() < 0.25
+    total = 6 if v4tail else 8
+    if rng.random() < 0.6:
+        keep = rng.randrange(0, total - 1)
+        k = rng.randrange(keep + 1)
+        s = ":".join(grp() for _ in range(k)) + "::" + ":".join(grp() for _ in range(keep - k))
+        if v4tail:
+            s += ("" if s.endswith(":") else ":") + str(ipaddress.IPv4Address(rng.choice(BOUNDARY)))
+    else:
+        s = ":".join(grp() for _ in range(total))
+        if v4tail:
+            s += ":" + str(ipaddress.IPv4Address(rng.choice(BOUNDARY)))
+    if rng.random() < 0.2:
+        s = rng.choice(["::ffff:", "0:0:0:0:0:ffff:", "::FFFF:", "::", "64:ff9b::", "::ffff:0:"]) + v4_notations(rng.choice(BOUNDARY), rng)
     if rng.random() < 0.3:
-        s += rng.choice([":", "::", ":1.2.3.4", ":127.0.0.1", ":1.2.3", ":01.2.3.4", "%eth0", " ", ":256.0.0.1", ".1"])
-    if rng.random() < 0.15:
-        s = rng.choice([":", "::", ""]) + s
-    if rng.random() < 0.1:
         k = rng.randrange(len(s) + 1)
-        s = s[:k] + rng.choice(["g", ".", ":", "1.2.3.4", "0", "::"]) + s[k:]
+        s = s[:k] + rng.choice(["g", ".", ":", "1.2.3.4", "0", "::", "12345", "%eth0", " ", ":1"]) + s[k + rng.choice([0, 0, 1]):]
     return s
 
 
-def fixed_cases():
-    """every block boundary +-1 in every notation, as a bare host and as a redirect target; every IPv6 literal; every name"""
+def fixed_cases(quick, rng):
+    """every block boundary +-1 as a bare host and as an IP string: canonical form always, every other notation in the
+    thorough tier (three seeded ones per address in the quick tier); every IPv6 literal; every name"""
     out = []
     for v in BOUNDARY:
-        for f in v4_notations(v, every=True):
+        fs = v4_notations(v, every=True)
+        if quick:
+            fs = fs[:1] + rng.sample(fs[1:], 3)
+        for f in fs:
             out.append({"kind": "host", "uri": f"http://{f}/"})
             out.append({"kind": "ipparse", "s": f})
     for l in V6_LITERALS:
@@ -214,7 +225,7 @@ def fixed_chains(quick):
     hosts = []
     for v in BOUNDARY:
         fs = v4_notations(v, every=True)
-        hosts += fs if not quick else fs[:1] + fs[4:6]
+        hosts += fs if not quick else fs[:1] + [fs[4 + v % 3]]
     hosts += ["[" + l + "]" for l in V6_LITERALS] + NAMES_GLOBAL + NAMES_LOCAL
     for h in hosts:
         out.append({"kind": "chain", "allowed": None, "allow_redirects": True, "uri": "http://example.com/s", "method": "GET",
@@ -311,7 +322,7 @@ def evaluate(ctx, cases, with_model=True):
             exprs.append(f"parse_ip_flat {H.cb(c['s'])}")
             meta.append((c, r, None))
     if with_model and exprs:
-        model = common.coq_eval("C27", H.IMPORTS, exprs, shard_size=150)
+        model = common.coq_eval("C27", H.IMPORTS, exprs, shard_size=max(40, len(exprs) // 16 + 1))
         for (c, r, ids), mo in zip(meta, model):
             k = c["kind"]
             if k == "chain":
@@ -333,8 +344,8 @@ def run(ctx):
         cases = [ctx.replay["case"]] if "case" in ctx.replay else [d["case"] for d in ctx.replay.get("disagreements", [])]
     else:
         q = ctx.quick()
-        cases = corpus() + fixed_cases() + fixed_chains(q)
-        cases += [gen_chain(ctx.rng) for _ in range(500 if q else 6000)]
+        cases = corpus() + fixed_cases(q, ctx.rng) + fixed_chains(q)
+        cases += [gen_chain(ctx.rng) for _ in range(400 if q else 6000)]
         cases += [gen_hostcase(ctx.rng) for _ in range(500 if q else 5000)]
         cases += [{"kind": "ipparse", "s": gen_ipstring(ctx.rng)} for _ in range(500 if q else 6000)]
     for i, c in enumerate(cases):
@@ -354,7 +365,7 @@ def run(ctx):
 
 def search(ctx):
     common.build_harness()
-    cases = fixed_cases() + fixed_chains(False)
+    cases = fixed_cases(False, ctx.rng) + fixed_chains(False)
     cases += [gen_chain(ctx.rng) for _ in range(8000)] + [gen_hostcase(ctx.rng) for _ in range(8000)]
     cases += [{"kind": "ipparse", "s": gen_ipstring(ctx.rng)} for _ in range(4000)]
     for i, c in enumerate(cases):
